@@ -102,7 +102,7 @@ func (e *env) genProgram(rng *rand.Rand) *program {
 
 var preMethods = []string{"delegateV2", "delegateV2", "undelegateV2", "redelegateV2", "withdraw", "approveShares", "approveShares",
 	"transferShares", "transferFromShares", "transferFromShares", "crossChain", "crossChain", "crossChain", "cancelSendToExternal", "cancelSendToExternal",
-	"increaseBridgeFee", "increaseBridgeFee", "bridgeCall", "bridgeCall", "bridgeCall", "executeClaim", "executeClaim", "delegation", "hasOracle"}
+	"increaseBridgeFee", "increaseBridgeFee", "bridgeCall", "bridgeCall", "bridgeCall", "executeClaim", "executeClaim", "delegation", "hasOracle", "delegationRewards", "delegationRewards"}
 
 // genPre fills a precompile call: method, calldata, kind, value, intended outcome.
 func (e *env) genPre(rng *rand.Rand, nd *evmx.Node, ctx common.Address, static bool) *meta {
@@ -166,7 +166,7 @@ func (e *env) genPre(rng *rand.Rand, nd *evmx.Node, ctx common.Address, static b
 		data, err = sabi.Pack(m, val, e.sink, amt(10))
 	case "transferFromShares":
 		data, err = sabi.Pack(m, val, e.owner.Address(), e.sink, amt(10))
-	case "delegation":
+	case "delegation", "delegationRewards":
 		data, err = sabi.Pack(m, val, ctx)
 	case "crossChain":
 		nd.To = e.cross
